@@ -164,7 +164,13 @@ Definition check_app_step (cx : Ctx) (pre : tables) (op : Op) (outcome : string)
       if negb (op_in_domain op) then VL [VS "outofdomain"; VS "oracle"] else
       let '(s', out) := step cx s op in
       let opmon := match op with
-                   | ODid (OpBinding _ m) => [("did.binding_proof_names_did", negb (String.eqb outcome "ok") || proof_names_did m)]
+                   | ODid (OpBinding _ m) =>
+                       [("did.binding_proof_names_did", negb (String.eqb outcome "ok") || proof_names_did m);
+                        (* a binding to a DID that already exists is submitted by an account already bound to it *)
+                        ("did.binding_by_bound_creator", negb (String.eqb outcome "ok") ||
+                           match d_ver (did s) !! b_root m with
+                           | Some _ => creator_bound (cx_chain cx) (did s) (b_creator m) (b_pdid m)
+                           | None => true end)]
                    | _ => [] end in
       mk_res (family_of_op op) (outcome_str out) (String.eqb (outcome_str out) outcome)
              (diff_tables (enc_state s') post) (outcome_detail out)
@@ -194,7 +200,8 @@ Definition check_blocks (cx : Ctx) (pre : tables) (n dt : Z) (outcome : string) 
   | Some s, Some ipost =>
       let '(s', out) := run_blocks (Z.to_nat n) cx dt s in
       mk_res "block" out (String.eqb out outcome) (diff_tables (enc_state s') post) "blocks"
-             (failed_monitors (did_monitors (cx_chain cx) (did ipost) ++ rollback_monitors true s ipost ++ [("mint.within_age_cap", mon_mint_cap n s ipost)] ++
+             (failed_monitors (did_monitors (cx_chain cx) (did ipost) ++ rollback_monitors true s ipost ++ [("mint.within_age_cap", mon_mint_cap n s ipost);
+                                                                                                     ("coll.release_exact", negb (String.eqb outcome "ok") || mon_release_exact s ipost)] ++
                                app_monitors true (cx_height cx + n - 1) ipost))
              (negb (tables_eqb pre post))
   | _, _ => res_undecodable "state"
@@ -207,6 +214,10 @@ Definition check_export_import (cx : Ctx) (pre : tables) (outcome : string) (pos
       let s' := export_import s in
       mk_res "genesis" "ok" (String.eqb outcome "ok") (diff_tables (enc_state s') post) "export/import"
              (failed_monitors [("genesis.roundtrip_complete", tables_eqb pre post);
+                               (* the tables that DO have a genesis field survive the round trip (the four that do not are finding D18) *)
+                               ("genesis.roundtrip_exported",
+                                tables_eqb (filter (fun kv => negb (in_list kv.1 ["node.FaultById"; "node.FaultIndex"; "node.FishingReward"; "node.NodeRound"])) pre)
+                                           (filter (fun kv => negb (in_list kv.1 ["node.FaultById"; "node.FaultIndex"; "node.FishingReward"; "node.NodeRound"])) post));
                                ("genesis.export_validates", String.eqb outcome "ok")])
              (negb (tables_eqb pre post))
   | _, _ => res_undecodable "state"
